@@ -11,7 +11,8 @@ def jobs(tier):
         out.append(dict(name='eps_%dpt' % (3 if tp else 2), src='h_satfunc.cpp', defs={'NT': 3, 'THREEPT': tp}, entry='h_eps_sat,h_eps_identity,h_eps_krw_vertical', fp='real', loopmax=2000, maxsteps=4000000,
                         bounds='%s-point scaling' % ('three' if tp else 'two')))
     for n in ((3,) if tier == 'quick' else (3, 4, 5)):
-        out.append(dict(name='inverse_n%d' % n, src='h_satfunc.cpp', defs={'NT': n}, entry='h_inverse', fp='real', loopmax=2000, maxsteps=4000000, bounds='%d nodes, strictly monotone columns' % n))
+        out.append(dict(name='inverse_n%d' % n, src='h_satfunc.cpp', defs=({'NT': n} if n == 3 else {'NT': n, 'SWFIXED': 1}), entry='h_inverse', fp='real', loopmax=2000, maxsteps=4000000, timeout=900,
+                        bounds='%d nodes, strictly monotone columns%s' % (n, '' if n == 3 else ', saturation nodes at fixed positions')))
     out.append(dict(name='points_init', src='h_satfunc.cpp', defs={'NT': 3}, entry='h_points_init', tus=['opm/material/fluidmatrixinteractions/EclEpsScalingPoints.cpp'], fp='real', loopmax=2000, bounds='all real end-point values, oil-water and gas-oil systems'))
     out.append(dict(name='eps_roundtrip_2pt', src='h_satfunc.cpp', defs={'NT': 3, 'THREEPT': 0}, entry='h_eps_roundtrip', fp='real', loopmax=2000, maxsteps=4000000, bounds='two-point scaling, inverse map'))
     for seg in (0, 1):
